@@ -338,6 +338,20 @@ def designed_cases():
         out.append({"fam": "Remediation", "cfg": "designed", "scenario": sc, "devs": [], "model": None, "id": vf.case_id(sc)})
     # Maven: two applied patches, one of which upgrades a direct dependency to a version that carries a hard range on the
     # package the other one overrides (witness of the open finding C11-override-combined-hard-range, found by a random universe)
+    # Maven: one record affects two direct dependencies (both overridden in the first round); the fix of one brings in a
+    # package with a record of its own, whose fix (second round) carries a hard range on the other: the override made in
+    # the first round must still be checked after the second
+    for lvl in ("patch", "minor", "major"):
+        sc = {"eco": "Maven",
+              "universe": [{"name": "pkg:c", "versions": [{"v": v, "deps": [], "latest": v == "3.0.0"} for v in ("1.0.0", "1.0.1", "3.0.0")]},
+                           {"name": "pkg:d", "versions": [{"v": "1.0.0", "deps": [], "latest": False}, {"v": "1.0.1", "deps": [["pkg:c", "[3.0.0]"]], "latest": True}]},
+                           {"name": "pkg:e", "versions": [{"v": "1.0.0", "deps": [], "latest": False}, {"v": "1.0.1", "deps": [["pkg:d", "1.0.0"]], "latest": True}]}],
+              "manifest": [{"name": "pkg:c", "req": "1.0.0", "group": ""}, {"name": "pkg:e", "req": "1.0.0", "group": ""}],
+              "vulns": [{"id": "V1", "pkg": "pkg:c", "events": [["introduced", "0"], ["fixed", "1.0.1"]], "sev": "high"},
+                        {"id": "V1", "pkg": "pkg:e", "events": [["introduced", "0"], ["fixed", "1.0.1"]], "sev": "high"},
+                        {"id": "V2", "pkg": "pkg:d", "events": [["introduced", "0"], ["fixed", "1.0.1"]], "sev": "high"}],
+              "opts": dict(base_opts("maven-override"), levels={"": lvl})}
+        out.append({"fam": "Remediation", "cfg": "designed", "scenario": sc, "devs": [], "model": None, "id": vf.case_id(sc)})
     sc = json.loads(COMBINED_WITNESS)
     out.append({"fam": "Remediation", "cfg": "designed", "scenario": sc, "devs": [], "model": None, "id": vf.case_id(sc)})
     return out
